@@ -775,6 +775,10 @@ impl CoreApi for Enforcer {
         }
         self.model.clear_policy();
 
+        if self.auto_build_role_links {
+            self.build_role_links()?;
+        }
+
         #[cfg(any(feature = "logging", feature = "watcher"))]
         self.emit(Event::PolicyChange, EventData::ClearPolicy);
 
